@@ -145,6 +145,9 @@ fn run_family(plan: &Plan, lib: &dyn Lib, rec: &mut Rec) {
     nv!(rec, rec_call(rec, lib, g, Op::PokVerify, &[&mk(&h.mul(&xs), &sigp.mul(&xs).neg()), &a.pk, &pmsg, &zero]), "ProofOfKnowledge::verify y=0 u=x*H v=-x*sig", g, scheme);
     // v = O, u = -y*H
     nv!(rec, rec_call(rec, lib, g, Op::PokVerify, &[&mk(&h.mul(&y).neg(), &o_sig), &a.pk, &pmsg, &yb]), "ProofOfKnowledge::verify v=O u=-y*H", g, scheme);
+    // u = -y*H with a non-trivial v: the verifier's intermediate sum u + y*H is the identity
+    nv!(rec, rec_call(rec, lib, g, Op::PokVerify, &[&mk(&h.mul(&y).neg(), &sigp.mul(&xs)), &a.pk, &pmsg, &yb]), "ProofOfKnowledge::verify u=-y*H (u+y*H=O) v=x*sig", g, scheme);
+    nv!(rec, rec_call(rec, lib, g, Op::PokVerify, &[&mk(&h.mul(&y).neg(), &sigp), &a.pk, &pmsg, &yb]), "ProofOfKnowledge::verify u=-y*H (u+y*H=O) v=sig", g, scheme);
     // pk = O, v = O
     nv!(rec, rec_call(rec, lib, g, Op::PokVerify, &[&mk(&h.mul(&xs), &o_sig), &id_pk, &pmsg, &yb]), "ProofOfKnowledge::verify pk=O v=O", g, scheme);
     nv!(rec, rec_call(rec, lib, g, Op::PokVerify, &[&mk(&o_sig, &o_sig), &id_pk, &pmsg, &zero]), "ProofOfKnowledge::verify all-identity y=0", g, scheme);
